@@ -156,6 +156,15 @@ fn one_case(ctx: &WorkerCtx, rep: &mut WorkerReport, case_seed: u64, boundary: b
         };
         rep.evaluations += 1;
         let exec_ok = rc["status"].as_str() == Some("0x1");
+        // a simulation is bounded by the configured call gas limit, the transaction by its allowance:
+        // where the real execution went beyond the simulation's limit (random byte code that loops,
+        // expands memory or branches on GAS) the two are not comparable - the statement excludes
+        // code that depends on the remaining gas
+        let used = rc["gasUsed"].as_str().and_then(|x| u64::from_str_radix(x.trim_start_matches("0x"), 16).ok()).unwrap_or(0);
+        if name == "deploy-garbage" && (used > rpc::call_gas_limit() || data.iter().any(|b| [0x5au8, 0xf0, 0xf1, 0xf2, 0xf4, 0xf5, 0xfa].contains(b))) {
+            rep.count("garbage_beyond_the_simulation_limit_or_gas_dependent", 1);
+            continue;
+        }
         if exec_ok != sim_ok {
             violation(rep, "C17", ctx.seed, &format!("status-differs:{}", name), format!("eth_call predicted {} for {} but the transaction executed next {}", if sim_ok { "success" } else { "failure" }, name, if exec_ok { "succeeded" } else { "failed" }),
                 json!({"case_seed": case_seed, "network": net, "program": name, "signed": signed, "eth_call": sim.short(), "receipt": rc}));
